@@ -171,7 +171,7 @@ def jobs(chk):
           part_cholesky(chk, False, 3 if not quick else 2, [1, 2], 'PartsS' if not quick else 'PartsQ'),
           part_cholesky(chk, True, 2, [1, 2], 'PartsS')]
     if not quick:
-        js.append(part_cholesky(chk, False, 3, [1, 2, 3], 'PartsQ'))
+        js.append(part_cholesky(chk, True, 3, [1, 2], 'Parts01'))
     return js
 
 
